@@ -62,7 +62,7 @@ pub mod time { #[derive(Clone, Copy, Debug)] pub struct Duration; }
 pub mod announce_env {
     use vstd::prelude::*;
     use crate::*;
-    #[derive(Debug)] pub enum SyncStatus { AlreadySynced, Synced { duration: time::Duration } }
+    #[derive(Debug, Clone)] pub enum SyncStatus { AlreadySynced, Synced { duration: time::Duration } }
     #[derive(Debug, Clone, Copy)] pub struct Progress { pub preferred: usize, pub synced: usize, pub unsynced: usize }
 }
 //@extract crates/radicle/src/node/sync/announce.rs
@@ -103,23 +103,28 @@ pub mod announce_env {
 //@    item struct Announcer
 //@    impl Announcer
 //@      add
-//@        /// ghost: how many synced nodes are preferred seeds / how many nodes are synced at all
-//@        pub uninterp spec fn n_preferred(self) -> usize;
-//@        pub uninterp spec fn n_synced(self) -> usize;
+//@        /// how many synced nodes are preferred seeds / how many nodes are synced at all (from the `synced` map itself)
+//@        pub open spec fn n_preferred(self) -> nat { self.synced@.dom().intersect(self.target.preferred_seeds@).len() }
+//@        pub open spec fn n_synced(self) -> nat { self.synced@.dom().len() }
 //@        /// stand-in for Announcer::success_counts (fold closure over the synced keys): ASSUMED to return those counts
 //@        #[verifier::external_body]
 //@        fn success_counts(&self) -> (r: SuccessCounts) ensures r.preferred == self.n_preferred(), r.synced == self.n_synced() { unimplemented!() }
 //@        #[verifier::external_body]
 //@        pub fn progress(&self) -> Progress { unimplemented!() }
-//@        /// stand-in for Announcer::finished (map_or closure over is_target_reached): result arbitrary
-//@        #[verifier::external_body]
-//@        fn finished(&self) -> ControlFlow<Success, Progress> { unimplemented!() }
 //@        /// C25, from the statement (announcer, per its tests `announcer_must_reach_preferred_seeds`): the target is met
 //@        /// when every preferred seed is synced AND the replica count is reached
 //@        pub open spec fn target_met(self) -> bool {
 //@            (self.target.preferred_seeds@.len() == 0 || self.n_preferred() >= self.target.preferred_seeds@.len())
-//@                && self.target.replicas.reached(self.n_synced())
+//@                && self.target.replicas.reached(self.n_synced() as usize)
 //@        }
+//@      fn finished
+//@        ret r
+//@        # the map_or closure gets its contract in place; the clone of the synced map is a stand-in (view-preserving)
+//@        body_sub \|outcome\| \{ => |outcome: SuccessfulOutcome| -> (o: ControlFlow<Success, Progress>) ensures o matches ControlFlow::Break(vx_s) && vx_s.synced@ == self.synced@ {
+//@        body_sub self\.synced\.clone\(\) => vx_clone_map(&self.synced)
+//@        ensures
+//@          r is Break <==> self.target_met()
+//@          r matches ControlFlow::Break(vx_s) ==> vx_s.synced@ == self.synced@
 //@      fn is_target_reached
 //@        ret r
 //@        body_sub \(([^()]*)\)\s*\.then_some\(([^()]*)\) => (if \1 { Some(\2) } else { None })
@@ -132,6 +137,12 @@ pub mod announce_env {
 //@        ensures
 //@          # the local node is never counted
 //@          node == old(self).local_node ==> r is Continue && *final(self) == *old(self)
+//@          # C25: every other node that reports in is counted, whether or not it was being waited on ("unknown nodes")
+//@          node != old(self).local_node ==> final(self).synced@.dom() == old(self).synced@.dom().insert(node)
+//@          node != old(self).local_node ==> final(self).to_sync@ == old(self).to_sync@.remove(node)
+//@          final(self).target == old(self).target && final(self).local_node == old(self).local_node
+//@          # ... and success is reported exactly when the target is then met
+//@          node != old(self).local_node ==> (r is Break <==> final(self).target_met())
 //@        head
 //@          proof { ids_lawful(); }
 //@      fn timed_out
@@ -139,10 +150,20 @@ pub mod announce_env {
 //@        ensures
 //@          r is Success <==> self.target_met()
 //@          !self.target_met() ==> r is TimedOut
+//@          # the result hands back exactly the synced / still-waiting sets
+//@          r matches AnnouncerResult::Success(vx_s) ==> vx_s.synced@ == self.synced@
+//@          r matches AnnouncerResult::TimedOut(vx_t) ==> vx_t.synced@ == self.synced@ && vx_t.timed_out@ == self.to_sync@
 //@end
 impl vstd::std_specs::convert::FromSpecImpl<announce::Success> for announce::AnnouncerResult { open spec fn obeys_from_spec() -> bool { true } open spec fn from_spec(s: announce::Success) -> Self { announce::AnnouncerResult::Success(s) } }
 impl vstd::std_specs::convert::FromSpecImpl<announce::TimedOut> for announce::AnnouncerResult { open spec fn obeys_from_spec() -> bool { true } open spec fn from_spec(s: announce::TimedOut) -> Self { announce::AnnouncerResult::TimedOut(s) } }
 
+/// ASSUMED (core): Option::map_or applies the closure to the value, or returns the default
+pub assume_specification<T, U, F: FnOnce(T) -> U>[Option::<T>::map_or](o: Option<T>, default: U, f: F) -> (r: U)
+    requires o is Some ==> f.requires((o->Some_0,))
+    ensures o is None ==> r == default, o is Some ==> f.ensures((o->Some_0,), r);
+/// ASSUMED (alloc): cloning a BTreeMap keeps its view
+#[verifier::external_body]
+pub fn vx_clone_map<K: Clone, V: Clone>(m: &BTreeMap<K, V>) -> (r: BTreeMap<K, V>) ensures r@ == m@ { m.clone() }
 /// ASSUMED (core): Option::filter keeps the value only if the predicate returned true on it
 pub assume_specification<T, P: FnOnce(&T) -> bool>[Option::<T>::filter](o: Option<T>, p: P) -> (r: Option<T>)
     requires o is Some ==> p.requires((&o->Some_0,))
